@@ -6,5 +6,7 @@ cd "$(dirname "$0")"
 mkdir -p bin evidence
 cp /repo/go.sum checker/go.sum 2>/dev/null || true
 (cd checker && go build -o ../bin/verifchk .)
+# warm the build cache, including the bounds-check report build C01 imports (cached builds replay their diagnostics)
 (cd /repo && go build ./... >/dev/null 2>&1 || true)
+(cd /repo && go build -gcflags='github.com/zen-eth/shisui/...=-d=ssa/check_bce/debug=1' ./... >/dev/null 2>&1 || true)
 echo "setup ok: $(./bin/verifchk -version 2>/dev/null || echo built)"
